@@ -426,4 +426,36 @@ Section RemH.
       - rewrite (proj2 (Nat.eqb_neq j r) NR). unfold nbp. now rewrite E.
     Qed.
   End Core.
+
+  (** [relinked h H' kk n r rp np co]: heap [H'] implements the re-linking of remove on heap [h] *)
+  Definition relinked (h H' : heap) (kk : key) (n r rp np co : nat) : Prop :=
+    (forall x xn, nth_error h x = Some xn -> x <> r ->
+       exists xn', nth_error H' (rho n r x) = Some xn' /\ n_bp xn' = n_bp xn /\
+                   n_left xn' = phi n r rp np co x (n_left xn) /\
+                   n_right xn' = phi n r rp np co x (n_right xn)) /\
+    (exists rnode, nth_error h r = Some rnode /\
+       (if PatInv.pbit kk (n_bp rnode) then n_left rnode else n_right rnode) = Some co /\
+       (n = r \/ exists nn, nth_error h n = Some nn /\ n_bp nn <= n_bp rnode)) /\
+    (forall j jn, nth_error h j = Some jn -> j <> n ->
+       exists jn', nth_error H' j = Some jn' /\ n_key jn' = n_key jn /\ n_val jn' = n_val jn).
+
+  Theorem remove_relinked : forall (h H' : heap) kk n r rp np co r0 rn0 c0 T,
+    relinked h H' kk n r rp np co ->
+    nth_error h r0 = Some rn0 -> n_bp rn0 = 0 -> n_left rn0 = Some c0 -> n_right rn0 = None ->
+    Rep h 0 c0 T -> is_leaf T = false ->
+    NoDup (inners T) -> NoDup (leaves T) -> owns T -> tbits (nbp h) (nkey h) T -> In r0 (leaves T) ->
+    ts (nbp h) kk T = n -> referrer h (ByKey kk) T r0 r0 = (rp, r) ->
+    (In n (inners T) -> nparent h (ByKey kk) n T r0 = np) -> (~ In n (inners T) -> np = r) ->
+    let T' := tdel (nbp h) kk n r T in
+    let root' := rho n r r0 in
+    exists rn0', nth_error H' root' = Some rn0' /\ n_bp rn0' = 0 /\
+      n_left rn0' = Some (newlink h kk n r co T c0) /\ n_right rn0' = None /\
+      Rep H' 0 (newlink h kk n r co T c0) T' /\ owns T' /\ NoDup (leaves T') /\ NoDup (inners T') /\
+      In root' (leaves T') /\ tbits (nbp H') (nkey H') T' /\
+      (forall j, In j (leaves T') <-> In j (leaves T) /\ j <> n) /\
+      (forall j, In j (leaves T') -> nkey H' j = nkey h j).
+  Proof.
+    intros h H' kk n r rp np co r0 rn0 c0 T [G [[rnode [Hrn [Hco Hnb]]] GK]].
+    exact (remove_represented h H' kk n r rp np co r0 G rnode Hrn Hco Hnb GK rn0 c0 T).
+  Qed.
 End RemH.
